@@ -234,7 +234,9 @@ func (self *Core) runInstruction(instruction compiler.Instruction) *value.VmInte
 			fmt.Printf("Memory write access `%v` at %x\n", *v, abs)
 		}
 
-		self.Memory[abs] = v
+		// Store a copy: the variable must not alias the cell the value came from (e.g. a list element)
+		copied := *v
+		self.Memory[abs] = &copied
 	case compiler.Opcode_SetGlobImm:
 		i := instruction.(compiler.OneStringInstruction)
 		v := self.pop()
